@@ -2,7 +2,7 @@
    Only statements closed by [exact]; the lemmas live in Proofs/Reference.v.
    The regular expressions are Generated/Regexes.v (re-translated from
    registry/reference.go on every run). *)
-From Oras Require Import Base.Prelude Base.Regex Generated.GC20 Model.Reference Model.RefOps Proofs.Reference Proofs.RefOps Proofs.RefURL Proofs.RefGrammar.
+From Oras Require Import Base.Prelude Base.Regex Generated.GC20 Model.Reference Model.RefOps Proofs.Reference Proofs.RefOps Proofs.RefURL Proofs.RefGrammar Model.NetURL Proofs.NetURL Proofs.RefDescOps Model.RefURLGen Proofs.RefURLGen.
 
 (* ParseReference accepts exactly the grammar (any registry predicate). *)
 Theorem C20_parse_iff_grammar :
@@ -107,6 +107,15 @@ Theorem C20_repo_rejects_other_paths_prefix_refuted :
     repo_parse_prefix avail vr breg brepo s = Some r /\ contains c_slash s = true /\ parse avail vr s = None.
 Proof. exact repo_parse_prefix_retargets. Qed.
 Print Assumptions C20_repo_rejects_other_paths_prefix_refuted.
+
+(* Repository.ParseReference accepts EXACTLY (inductive RepoRefGrammar, Proofs/Reference.v): a
+   tag; a digest; <dropped>@digest with the dropped part free of '/' and '@'; or a fully qualified
+   reference of the base repository with a non-empty reference -- for every base, valid or not *)
+Theorem C20_repo_parse_iff_grammar :
+  forall (avail valid_registry : str -> bool) breg brepo s r,
+    repo_parse avail valid_registry breg brepo s = Some r <-> RepoRefGrammar avail valid_registry breg brepo s r.
+Proof. exact repo_parse_iff_grammar. Qed.
+Print Assumptions C20_repo_parse_iff_grammar.
 
 Theorem C20_repo_result_in_base :
   forall (avail valid_registry : str -> bool) breg brepo s r,
@@ -239,3 +248,338 @@ Example C20_nonvacuous :
   parse (fun _ => true) (fun _ => true) (b "localhost:5000/hello/world:v1.0")
   = Some (mkRef (b "localhost:5000") (b "hello/world") (b "v1.0")).
 Proof. vm_compute. reflexivity. Qed.
+
+(* ---------- the registry check itself (Model/NetURL.v: net/url of go1.26.8) ---------- *)
+
+(* whatever ValidateRegistry accepts is a clean URL authority: non-empty, no control character,
+   space, '#', '%', '/', '?', '@' (no user-info), backslash -- for every behaviour of
+   netip.ParseAddr.  This discharges the hypothesis of C20_url_exact for the modelled validator. *)
+Theorem C20_registry_clean :
+  forall (ip6_ok : str -> bool) reg,
+    go_valid_registry ip6_ok reg = true -> reg_clean reg = true /\ contains c_slash reg = false.
+Proof. exact go_valid_registry_clean. Qed.
+Print Assumptions C20_registry_clean.
+
+(* registries without brackets (reg-name [":" port]) are characterised exactly *)
+Theorem C20_registry_regname_iff :
+  forall (ip6_ok : str -> bool) reg,
+    contains 91 reg = false ->
+    (go_valid_registry ip6_ok reg = true <->
+     reg <> [] /\ forallb hostcb reg = true /\
+     (forall i, last_index_of 58 reg = Some i -> forallb is_digit_c (skipn (S i) reg) = true)).
+Proof. exact registry_regname_iff. Qed.
+Print Assumptions C20_registry_regname_iff.
+
+(* ... and so are the bracketed IP literals: '[' host ']' [':' digits] with host bytes inside the
+   brackets, no further bracket, and an inside that netip.ParseAddr accepts as a non-IPv4 address.
+   Together with C20_registry_regname_iff this is the complete grammar of accepted registries. *)
+Theorem C20_registry_bracket_iff :
+  forall (ip6_ok : str -> bool) reg,
+    contains 91 reg = true ->
+    (go_valid_registry ip6_ok reg = true <->
+     exists h port,
+       reg = 91 :: h ++ 93 :: port /\ contains 91 h = false /\ contains 91 port = false /\ contains 93 port = false /\
+       forallb hostcb h = true /\ ip6_ok h = true /\ valid_optional_port port = true).
+Proof. exact registry_bracket_iff. Qed.
+Print Assumptions C20_registry_bracket_iff.
+
+(* go_valid_registry answers "rejected" at once when the registry contains '?', '/' or '@'; that is
+   sound: it equals the step-by-step rendering of url.ParseRequestURI (query cut at the first '?',
+   authority up to the first '/', user-info before the last '@', Host compared with the registry),
+   whatever the user-info and path checks it leaves abstract answer *)
+Theorem C20_registry_shortcuts_sound :
+  forall (ip6_ok : str -> bool) (other_ok : str -> option str -> bool) reg,
+    (forall a, contains 64 a = false -> other_ok a None = true) ->
+    go_valid_registry_faithful ip6_ok other_ok reg = go_valid_registry ip6_ok reg.
+Proof. exact go_valid_registry_faithful_eq. Qed.
+Print Assumptions C20_registry_shortcuts_sound.
+
+(* the URL clauses with the modelled validator: no hypothesis about the registry left *)
+Theorem C20_url_exact_go :
+  forall (avail ip6_ok : str -> bool) plain s r,
+    parse avail (go_valid_registry ip6_ok) s = Some r -> r_reference r <> [] ->
+    url_is (url_manifest plain r) plain r (b "manifests") /\
+    url_is (url_blob plain r) plain r (b "blobs") /\
+    url_is (url_referrers plain r) plain r (b "referrers").
+Proof. exact url_exact_go. Qed.
+Print Assumptions C20_url_exact_go.
+
+Theorem C20_url_exact_noref_go :
+  forall (avail ip6_ok : str -> bool) plain s r,
+    parse avail (go_valid_registry ip6_ok) s = Some r ->
+    url_split (url_taglist plain r)
+    = Some (mkParts (scheme plain) (host_of (r_registry r)) (b "/v2/" ++ r_repository r ++ b "/tags/list") None None) /\
+    url_split (url_upload plain r)
+    = Some (mkParts (scheme plain) (host_of (r_registry r)) (b "/v2/" ++ r_repository r ++ b "/blobs/uploads/") None None).
+Proof. exact url_exact_noref_go. Qed.
+Print Assumptions C20_url_exact_noref_go.
+
+Theorem C20_op_requests_exact_paths_go :
+  forall (avail ip6_ok : str -> bool) op plain breg brepo s d reqs,
+    go_valid_registry ip6_ok breg = true -> valid_repository brepo = true -> valid_digest avail d = true ->
+    op_requests avail (go_valid_registry ip6_ok) op plain breg brepo s d = Some reqs ->
+    exists r, repo_parse avail (go_valid_registry ip6_ok) breg brepo s = Some r /\
+      Forall (fun mu => exists seg x,
+                (seg = b "manifests" \/ seg = b "blobs") /\ (x = r_reference r \/ x = d) /\
+                url_is (snd mu) plain (mkRef breg brepo x) seg) reqs.
+Proof. exact op_requests_exact_paths_go. Qed.
+Print Assumptions C20_op_requests_exact_paths_go.
+
+(* ... and with the complete model of the validator (netip.ParseAddr modelled too: go_registry):
+   the property's URL clause with no parameter and no hypothesis left *)
+Theorem C20_url_exact_full :
+  forall (avail : str -> bool) plain s r,
+    parse avail go_registry s = Some r -> r_reference r <> [] ->
+    url_is (url_manifest plain r) plain r (b "manifests") /\
+    url_is (url_blob plain r) plain r (b "blobs") /\
+    url_is (url_referrers plain r) plain r (b "referrers").
+Proof. exact (fun avail => url_exact_go avail go_ip6_ok). Qed.
+Print Assumptions C20_url_exact_full.
+
+Example C20_registry_ip6_examples :
+  go_registry (b "[::1]:5000") = true /\ go_registry (b "[1.2.3.4]") = false /\
+  go_registry (b "[::ffff:1.2.3.4]") = true /\ go_registry (b "[fe80::1%25en0]") = false /\
+  go_registry (b "[1:2:3:4:5:6:7:8]") = true /\ go_registry (b "[1:2:3:4:5:6:7:8:9]") = false /\
+  go_registry (b "[::1::]") = false /\ go_registry (b "[1:2:3:4:5:6:1.2.3.4]") = true /\
+  go_registry (b "[1:2:3:4:5:1.2.3.4]") = false /\ go_registry (b "[12345::]") = false /\
+  go_registry (b "[::01.2.3.4]") = false /\ go_registry (b "[]") = false /\ go_registry (b "a[::1]") = false.
+Proof. vm_compute. repeat split. Qed.
+
+Example C20_registry_examples :
+  go_valid_registry (fun _ => true) (b "localhost:5000") = true /\
+  go_valid_registry (fun _ => true) (b "[::1]:5000") = true /\
+  go_valid_registry (fun _ => false) (b "[::1]:5000") = false /\
+  go_valid_registry (fun _ => true) (b "reg:") = true /\
+  go_valid_registry (fun _ => true) (b "u@h") = false /\ go_valid_registry (fun _ => true) (b "h?x") = false /\
+  go_valid_registry (fun _ => true) (b "a%41") = false /\ go_valid_registry (fun _ => true) (b "h:80:90") = true /\
+  go_valid_registry (fun _ => true) (b "[fe80::1%25en0]") = false /\ go_valid_registry (fun _ => true) (b "h:5a") = false /\
+  parse (fun _ => true) (go_valid_registry (fun _ => true)) (b "localhost:5000/hello/world:v1")
+  = Some (mkRef (b "localhost:5000") (b "hello/world") (b "v1")).
+Proof. vm_compute. repeat split. Qed.
+
+(* ---------- the two query-carrying URL builders ---------- *)
+
+(* url.QueryEscape is inverted by url.QueryUnescape (all byte strings) *)
+Theorem C20_query_escape_roundtrip :
+  forall s, Forall (fun c => (c < 256)%N) s -> query_unescape (query_escape s) = Some s.
+Proof. exact query_escape_roundtrip. Qed.
+Print Assumptions C20_query_escape_roundtrip.
+
+(* referrers URL with an artifactType filter: exact path; the query is exactly
+   artifactType=<escaped value>; the escaped value has no '&', '=', '#', '?' and decodes to the
+   requested artifact type; no fragment -- for EVERY artifact type string *)
+Theorem C20_url_referrers_at_exact :
+  forall (avail vr : str -> bool) plain r at_,
+    (forall reg, vr reg = true -> reg_clean reg = true) ->
+    wf_ref avail vr r -> r_reference r <> [] -> at_ <> [] -> Forall (fun c => (c < 256)%N) at_ ->
+    url_split (url_referrers_at plain r at_)
+    = Some (mkParts (scheme plain) (host_of (r_registry r))
+              (b "/v2/" ++ r_repository r ++ b "/referrers/" ++ r_reference r)
+              (Some (b "artifactType=" ++ query_escape at_)) None) /\
+    query_unescape (query_escape at_) = Some at_ /\
+    contains 38 (query_escape at_) = false /\ contains 61 (query_escape at_) = false /\
+    contains c_hash (query_escape at_) = false /\ contains c_qm (query_escape at_) = false.
+Proof. exact (fun avail vr plain r at_ H => url_referrers_at_exact avail vr H plain r at_). Qed.
+Print Assumptions C20_url_referrers_at_exact.
+
+(* blob mount URL (valid digest, valid source repository): exact path, query exactly
+   mount=<digest>&from=<repository>, and neither value needs escaping *)
+Theorem C20_url_mount_exact :
+  forall (avail vr : str -> bool) plain r d from,
+    (forall reg, vr reg = true -> reg_clean reg = true) ->
+    wf_ref avail vr r -> valid_digest avail d = true -> valid_repository from = true ->
+    url_split (url_mount plain r d from)
+    = Some (mkParts (scheme plain) (host_of (r_registry r)) (b "/v2/" ++ r_repository r ++ b "/blobs/uploads/")
+              (Some (b "mount=" ++ d ++ b "&from=" ++ from)) None) /\
+    Forall (fun x => contains x d = false /\ contains x from = false) [38; 61; c_hash; c_pct; 43; c_qm].
+Proof. exact (fun avail vr plain r d from H => url_mount_exact avail vr H plain r d from). Qed.
+Print Assumptions C20_url_mount_exact.
+
+Example C20_query_examples :
+  query_escape (b "a b&c=d/e#f?") = b "a+b%26c%3Dd%2Fe%23f%3F" /\
+  url_referrers_at false (mkRef (b "h") (b "a") (b "t")) (b "x/y z") = b "https://h/v2/a/referrers/t?artifactType=x%2Fy+z" /\
+  url_referrers_at false (mkRef (b "h") (b "a") (b "t")) [] = b "https://h/v2/a/referrers/t".
+Proof. vm_compute. repeat split. Qed.
+
+(* ---------- descriptor-driven operations (Fetch, Delete, Referrers, Mount, Push, Tags) ---------- *)
+
+(* setQueryParams / url.Values.Encode output is decoded by url.ParseQuery to exactly the
+   parameters that were put in, for all byte strings as keys and values *)
+Theorem C20_parse_query_encode :
+  forall ps, ps <> [] -> params_bytes ps -> parse_query (encode_params ps) = Some ps.
+Proof. exact parse_query_encode. Qed.
+Print Assumptions C20_parse_query_encode.
+
+(* every such operation sends one request, of the documented method, to exactly the operation's
+   slot /v2/<base repository>/<slot> of the base registry (authority = host, no user-info, no
+   fragment, exact segments); no query where none is documented, otherwise a query that decodes
+   to exactly the documented parameters (referrers: artifactType, n; tags: n, last; mount: mount,
+   from) -- for every artifact type / last tag byte string, every page size string, every valid
+   digest, every valid base *)
+Theorem C20_desc_op_requests_exact :
+  forall (avail vr : str -> bool) op plain breg brepo d a1 num,
+    (forall reg, vr reg = true -> reg_clean reg = true) ->
+    vr breg = true -> valid_repository brepo = true -> valid_digest avail d = true ->
+    bytes a1 -> bytes num -> (op = DMount -> valid_repository a1 = true) ->
+    exists u q,
+      desc_op_requests op plain (mkRef breg brepo []) d a1 num = [(desc_op_method op, u)] /\
+      url_split u = Some (mkParts (scheme plain) (host_of breg) (path_of brepo (desc_op_slot op d)) q None) /\
+      split_on c_slash (path_of brepo (desc_op_slot op d)) = [[]; b "v2"] ++ split_on c_slash brepo ++ desc_op_slot op d /\
+      contains c_at (host_of breg) = false /\
+      match desc_op_params op d a1 num with
+      | [] => q = None
+      | ps => exists qs, q = Some qs /\ parse_query qs = Some ps
+      end.
+Proof. exact (fun avail vr op plain breg brepo d a1 num H => desc_op_requests_exact avail vr H op plain breg brepo d a1 num). Qed.
+Print Assumptions C20_desc_op_requests_exact.
+
+Example C20_desc_op_examples :
+  desc_op_requests DTags true (mkRef (b "localhost:5000") (b "a/b") []) [] (b "x y&z") (b "50")
+  = [(b "GET", b "http://localhost:5000/v2/a/b/tags/list?n=50&last=x+y%26z")] /\
+  desc_op_requests DReferrers false (mkRef (b "docker.io") (b "library/x") []) (b "sha256:ab") (b "a/b") []
+  = [(b "GET", b "https://registry-1.docker.io/v2/library/x/referrers/sha256:ab?artifactType=a%2Fb")] /\
+  parse_query (b "n=50&last=x+y%26z") = Some [(b "n", b "50"); (b "last", b "x y&z")].
+Proof. vm_compute. repeat split. Qed.
+
+(* ---------- tie to the Go source ---------- *)
+
+(* the URL builders assembled (Sprintf / Join model) from the string literals the translator reads
+   off registry/remote/url.go and Reference.Host on every run are the closed forms the theorems
+   above are stated about; the correspondence check runs the assembled ones *)
+Theorem C20_generated_builders_agree :
+  forall plain r d from at_,
+    gen_url_base plain r = url_base plain r /\ gen_url_catalog plain r = url_catalog plain r /\
+    gen_url_repo_base plain r = url_repo_base plain r /\ gen_url_taglist plain r = url_taglist plain r /\
+    gen_url_manifest plain r = url_manifest plain r /\ gen_url_blob plain r = url_blob plain r /\
+    gen_url_upload plain r = url_upload plain r /\ gen_url_referrers plain r = url_referrers plain r /\
+    gen_url_mount plain r d from = url_mount plain r d from /\
+    gen_url_referrers_at plain r at_ = url_referrers_at plain r at_ /\
+    nth 0 ValidateRegistry_lits [] = b "dummy://".
+Proof. exact generated_builders_agree. Qed.
+Print Assumptions C20_generated_builders_agree.
+
+(* ---------- Reference.Validate ---------- *)
+
+Theorem C20_parse_validate :
+  forall (avail ip6_ok : str -> bool) s r,
+    parse avail (go_valid_registry ip6_ok) s = Some r -> validate avail (go_valid_registry ip6_ok) r = true.
+Proof. exact parse_validate. Qed.
+Print Assumptions C20_parse_validate.
+
+(* the round trip holds for every Reference VALUE that passes Validate, not only for parsed ones *)
+Theorem C20_validate_roundtrip :
+  forall (avail ip6_ok : str -> bool) r,
+    validate avail (go_valid_registry ip6_ok) r = true ->
+    parse avail (go_valid_registry ip6_ok) (format avail r) = Some r.
+Proof. exact validate_roundtrip. Qed.
+Print Assumptions C20_validate_roundtrip.
+
+(* ---------- every history of calls on one Repository ---------- *)
+
+(* whatever sequence of reference-taking and descriptor-driven operations is called on a Repository
+   with a valid base (reference strings arbitrary; descriptors with valid digests), every request
+   ever sent goes to the base registry's host (no user-info), under /v2/<base repository>/, with
+   exactly the segments listed, and has no fragment *)
+Theorem C20_session_in_base :
+  forall (avail vr : str -> bool) plain breg brepo cs,
+    (forall reg, vr reg = true -> reg_clean reg = true) ->
+    vr breg = true -> valid_repository brepo = true ->
+    Forall (call_ok avail) cs ->
+    Forall (fun mu => in_base_slot plain breg brepo (snd mu)) (session_requests avail vr plain breg brepo cs).
+Proof. exact (fun avail vr plain breg brepo cs H Hb Hp => session_in_base avail vr H plain breg brepo Hb Hp cs). Qed.
+Print Assumptions C20_session_in_base.
+
+Example C20_session_example :
+  session_requests (fun _ => true) go_registry false (b "localhost:5000") (b "a/b")
+    [CRef OpMResolve (b "ghcr.io/Org/app@sha256:e3b0c44298fc1c149afbf4c8996fb92427ae41e4649b934ca495991b7852b855") [];
+     CRef OpMResolve (b "v1") []; CDesc DTags [] (b "v 1") []]
+  = [(b "HEAD", b "https://localhost:5000/v2/a/b/manifests/v1");
+     (b "GET", b "https://localhost:5000/v2/a/b/tags/list?last=v+1")].
+Proof. vm_compute. reflexivity. Qed.
+
+(* ---------- every Repository / Registry value the library constructs ---------- *)
+
+(* remote.NewRepository(s) succeeds exactly like ParseReference(s) (same model function) and the
+   base of the value it returns satisfies the hypotheses of all Repository theorems above: the
+   "valid base" of C20_repo_*, C20_op_*, C20_desc_op_requests_exact and C20_session_in_base is
+   what the constructors guarantee, not an assumption about callers *)
+Theorem C20_new_repository_base_ok :
+  forall (avail vr : str -> bool) s base,
+    new_repository avail vr s = Some base ->
+    vr (r_registry base) = true /\ valid_repository (r_repository base) = true.
+Proof. exact new_repository_base_ok. Qed.
+Print Assumptions C20_new_repository_base_ok.
+
+Theorem C20_registry_repository_base_ok :
+  forall (vr : str -> bool) name sub reg base,
+    new_registry vr name = Some reg -> registry_repository reg sub = Some base ->
+    base = mkRef name sub [] /\ vr name = true /\ valid_repository sub = true.
+Proof. exact registry_repository_base_ok. Qed.
+Print Assumptions C20_registry_repository_base_ok.
+
+(* Registry.Ping / Registry.Repositories: one GET to exactly /v2/ resp. /v2/_catalog *)
+Theorem C20_reg_op_requests_exact :
+  forall (vr : str -> bool) op plain reg a1 num,
+    (forall r, vr r = true -> reg_clean r = true) -> vr reg = true -> bytes a1 -> bytes num ->
+    exists u q,
+      reg_op_requests op plain reg a1 num = [(m_get, u)] /\
+      url_split u = Some (mkParts (scheme plain) (host_of reg) (reg_op_path op) q None) /\
+      contains c_at (host_of reg) = false /\
+      match reg_op_params op a1 num with
+      | [] => q = None
+      | ps => exists qs, q = Some qs /\ parse_query qs = Some ps
+      end.
+Proof. exact reg_op_requests_exact. Qed.
+Print Assumptions C20_reg_op_requests_exact.
+
+(* the hand model of Digest.Validate is of exactly this source: go.sum pins go-digest's content *)
+Example C20_go_digest_pinned :
+  go_digest_pin = (b "v1.0.0", b "h1:apOUWs51W5PlhuyGyz9FCeeBIOUDA/6nW8Oi/yOhh5U=").
+Proof. vm_compute. reflexivity. Qed.
+
+(* the characters at which ParseReference / Repository.ParseReference / ValidateReference split are
+   the ones of the model: the one-character string literals of those functions, read off the Go
+   source on every run *)
+Example C20_separators_pinned :
+  filter (fun l => Nat.eqb (length l) 1) ParseReference_lits = [[c_slash]; [c_at]; [c_colon]; [c_colon]] /\
+  filter (fun l => Nat.eqb (length l) 1) String_lits = [[c_slash]; [c_at]; [c_colon]] /\
+  filter (fun l => Nat.eqb (length l) 1) setQueryParams_lits = [[38]; [61]; [61]; [38]].
+Proof. vm_compute. repeat split. Qed.
+
+(* ---------- oras.Tag / oras.TagN on a remote Repository (content.go) ---------- *)
+
+(* whatever source / destination strings are passed and whatever the registry serves, every request
+   of oras.Tag / oras.TagN on a Repository with a valid base stays in the base repository *)
+Theorem C20_oras_tag_in_base :
+  forall (avail vr : str -> bool) plain breg brepo src dsts served,
+    (forall reg, vr reg = true -> reg_clean reg = true) ->
+    vr breg = true -> valid_repository brepo = true ->
+    Forall (fun mu => in_base_slot plain breg brepo (snd mu))
+           (oras_tag_requests avail vr plain breg brepo src dsts served).
+Proof. exact (fun avail vr plain breg brepo src dsts served H Hb Hp => oras_tag_in_base avail vr H plain breg brepo Hb Hp src dsts served). Qed.
+Print Assumptions C20_oras_tag_in_base.
+
+(* tag@digest as source and a fully qualified destination send exactly the requests of the bare
+   digest and the bare tag *)
+Theorem C20_oras_tag_forms_agree :
+  forall (avail vr : str -> bool) plain breg brepo t dg d2 served,
+    (forall reg, vr reg = true -> reg_clean reg = true) ->
+    vr breg = true -> valid_repository brepo = true ->
+    valid_tag t = true -> valid_digest avail dg = true -> valid_tag d2 = true ->
+    oras_tag_requests avail vr plain breg brepo (t ++ [c_at] ++ dg) [breg ++ [c_slash] ++ brepo ++ [c_colon] ++ d2] served
+    = oras_tag_requests avail vr plain breg brepo dg [d2] served.
+Proof. exact (fun avail vr plain breg brepo t dg d2 served H Hb Hp => oras_tag_forms_agree avail vr H plain breg brepo Hb Hp t dg d2 served). Qed.
+Print Assumptions C20_oras_tag_forms_agree.
+
+(* the hypotheses of the operation theorems are satisfiable together (with the complete validator) *)
+Example C20_operation_hypotheses_satisfiable :
+  go_registry (b "localhost:5000") = true /\ valid_repository (b "hello/world") = true /\
+  valid_digest (fun _ => true) (b "sha256:e3b0c44298fc1c149afbf4c8996fb92427ae41e4649b934ca495991b7852b855") = true /\
+  bytes (b "x y&z") /\ valid_repository (b "library/x") = true /\
+  new_repository (fun _ => true) go_registry (b "localhost:5000/hello/world:v1")
+  = Some (mkRef (b "localhost:5000") (b "hello/world") (b "v1")) /\
+  oras_tag_requests (fun _ => true) go_registry false (b "localhost:5000") (b "hello/world") (b "v1")
+    [b "localhost:5000/hello/world:v2"; b "ghcr.io/Org/app@sha256:00"; b "v3"] (b "sha256:00")
+  = [(b "GET", b "https://localhost:5000/v2/hello/world/manifests/v1");
+     (b "PUT", b "https://localhost:5000/v2/hello/world/manifests/v2")].
+Proof. repeat split; try (vm_compute; reflexivity). repeat constructor. Qed.
